@@ -30,7 +30,7 @@ def expand(selection):
 
 
 def selections(tier, seed):
-    quick = ["all", "strong", "glibc", "yescrypt", "descrypt", "bigcrypt", "sha512crypt,sha256crypt", "bcrypt_x,nt"]
+    quick = ["all", "strong", "glibc", "yescrypt", "scrypt", "descrypt", "bigcrypt", "sha512crypt,sha256crypt", "bcrypt_x,nt"]
     if tier == "quick":
         return quick
     sel = list(GROUPS) + list(METHODS)
@@ -66,8 +66,13 @@ def job(scr, job, res, tier="quick", seed=0):
             res.obligations.append(Obligation(job["name"], "config[%s].builds" % tag,
                                               "[C19] every library translation unit compiles with --enable-hashes=%s %s" % (selname, why),
                                               built, {"file": "lib/*.c", "line": 0}))
-            results = core.run_jobs(scr2, subs)
-            for sj in subs:
+            cfg_subs = list(subs)
+            # the wrapper shared by $y$ and $7$ exists when either is enabled:
+            # sibling guards must neither refuse an enabled method nor admit a disabled one
+            if ",yescrypt," in enabled or ",scrypt," in enabled:
+                cfg_subs.append(alljobs["yescrypt_wrapper"])
+            results = core.run_jobs(scr2, cfg_subs)
+            for sj in cfg_subs:
                 r = results[sj["name"]]
                 if r.error:
                     raise ToolError("config %s: job %s: %s" % (selname, sj["name"], r.error))
